@@ -692,6 +692,13 @@ func init() {
 							}
 						}
 					}
+					if c.Kind == "randtranscript" && c.Int("i")%2 == 1 {
+						// description fields the transcript does not depend on (plonky2 draws
+						// num_challenges betas / gammas / alphas whatever the other counts are)
+						in.Common.Config.NumConstants += uint64(1 + r.Intn(3))
+						in.Common.Config.NumWires += uint64(r.Intn(3))
+						in.Common.NumGateConstraints += uint64(r.Intn(3))
+					}
 					base, res0 := circuitChallenges((*instT)(in), engine.Native)
 					o.Events += events(res0)
 					if !res0.AcceptedHonestly() {
